@@ -86,6 +86,8 @@ def _format_locations_text(others: list[ConstantLocation]) -> str:
     """Format other locations as text (module-level helper)."""
     if not others:
         return ""
+    # List locations in a stable order (not the order in which files happened to be linted)
+    others = sorted(others, key=lambda loc: (str(loc.file_path), loc.line_number, loc.name))
     parts = [_format_single_location(loc) for loc in others[:MAX_DISPLAYED_LOCATIONS]]
     result = "Also found in: " + ", ".join(parts)
     extra = len(others) - MAX_DISPLAYED_LOCATIONS
